@@ -438,12 +438,17 @@ def crafted(rng):
         streams = [rng.bytes(nbytes)] + [b""] * k
         out.append(("crafted-one-bit-plus-%d-zero-width%s" % (k, "" if nbytes >= 2000 else "-small"), build(pc_xml(8 * nbytes, proto), cv([data_packet(streams)])),
                     "one-bit record + %d zero-width records, %d stream bytes" % (k, nbytes)))
-    # the same with 100 zero-width extension records: about 12 KB of file, 32000 * 101 queued values
-    k, nbytes = 100, 4000
-    proto = '<cartesianX type="Integer" minimum="0" maximum="1"/>' + "".join('<zz:a%d type="Integer" minimum="7" maximum="7"/>' % i for i in range(k))
-    xml = pc_xml(8 * nbytes, proto).replace(b"<e57Root ", b'<e57Root xmlns:zz="http://z" ', 1)
-    out.append(("crafted-one-bit-plus-100-zero-width", build(xml, cv([data_packet([rng.bytes(nbytes)] + [b""] * k)])),
-                "one-bit record + 100 zero-width records, 4000 stream bytes"))
+    # regression probes for the zero-width amplification repaired in the crate by 803272f (a 10 KB file needed 53 MB, a 35 KB
+    # file 525 MB): many zero-width extension records next to a one-bit record must now respect the fixed memory bound
+    for k, nbytes in ((100, 4000), (500, 8000)):
+        proto = '<cartesianX type="Integer" minimum="0" maximum="1"/>' + "".join('<zz:a%d type="Integer" minimum="7" maximum="7"/>' % i for i in range(k))
+        xml = pc_xml(8 * nbytes, proto).replace(b"<e57Root ", b'<e57Root xmlns:zz="http://z" ', 1)
+        out.append(("crafted-one-bit-plus-%d-zero-width" % k, build(xml, cv([data_packet([rng.bytes(nbytes)] + [b""] * k)])),
+                    "one-bit record + %d zero-width records, %d stream bytes" % (k, nbytes)))
+    # XML nested deeper than any parser stack: must be an error, never a dead process (repaired by 7d387b1: depth limit 256)
+    for depth in (255, 256, 257, 300, 20000):
+        deep = pc_xml(1, '<cartesianX type="Float"/>').replace(b"</e57Root>", b"<a>" * depth + b"</a>" * depth + b"</e57Root>")
+        out.append(("crafted-xml-depth-%d" % depth, build(deep, cv([data_packet([rng.bytes(4)])])), "XML with %d nested elements below the root" % depth))
     # all zero width
     proto = "".join('<%s type="Integer" minimum="7" maximum="7"/>' % n for n in names[:3])
     out.append(("crafted-all-zero-width", build(pc_xml(1000000, proto), cv([data_packet([b"", b"", b""])])), "no sized record"))
